@@ -1337,6 +1337,146 @@ def case_restart(rng, path):
     return g
 
 
+# ---------------------------------------------------------------------------------------------
+# C19 "... and then counts in fork resolution and payouts" (direct oracles on the implementation)
+# ---------------------------------------------------------------------------------------------
+PAYOUT_DISTANCES = ["0", "1", "n-2", "n-1", "n"]      # n = size of relativeScoreLookupTable(), read by the harness
+FORKRES_OFFSETS = ["0", "1", "ki-1", "ki", "ki+1"]     # endorsed block = keystone K + offset
+
+
+def case_payout(rng, dsym):
+    """2-3 honest endorsements of one block, blocks of proof 0 / d / in between above the earliest publication; every
+    one with a non-zero table weight must be paid at the payout height (scenario + oracle: harness op payscen)"""
+    r = rng
+
+    class G:
+        pass
+    g = G()
+    s = r.range(2, 5)
+    delay = s + r.below(3)
+    third = r.choice(["-", "mid", "one", "same"])
+    g.lines = ["begin alt_ki=%d alt_settle=%d payout_delay=%d" % (r.range(2, 5), s, delay),
+               "on A payscen %d %s %s" % (r.range(1, 4), dsym, third)]
+    g.tags = {1: ("scen",)}
+    g.expect = [None, None]
+    g.meta = dict(mutation="payout_distance_" + dsym, planted=False, depth=0, desc=0, third=third)
+    g.subtree = lambda x: [x]
+    return g
+
+
+def case_forkres(rng, kmul, osym, later):
+    """F (below keystone K) - chain A, backed ONLY by an honest endorsement of its block at K + o, and an equally long
+    chain B with no endorsement (later=False) or with one endorsement for K published LATER in VBK (later=True).
+    A must win: comparePopScore > 0 with A active, < 0 with B active (and the instance switches to A)."""
+    r = rng
+    ki = r.range(3, 5)
+    s = r.range(3, 6)
+    g = RulesGen(r, dict(alt_ki=ki, alt_settle=s, payout_delay=s + r.below(2), vbk_settle=r.range(8, 12)))
+    K = kmul * ki
+    o = {"0": 0, "1": 1, "ki-1": ki - 1, "ki": ki, "ki+1": ki + 1}[osym]
+    hF = r.range(K - ki, K - 1)
+    common = ["a0"]
+    for _ in range(hF):
+        common.append(g.hblock(common[-1], n_atv=0, n_vtb=0))
+    F = common[-1]
+    lo = K + o + 1
+    at = max(K + ki + 1, lo)
+    T = r.choice([lo, at, at, at + r.range(1, 3)])
+    oB = r.range(0, ki - 1)
+    if later:
+        T = max(T, K + oB + 1)
+    cA = r.range(K + o + 1, min(T, K + o + s))
+    cB = r.range(K + oB + 1, min(T, K + oB + s))
+    g.on("frtable")
+    tbl = len(g.lines) - 1
+
+    def chain(endorsed_h, containing_h):
+        c = [F]
+        t = None
+        for h in range(hF + 1, T + 1):
+            if h == containing_h:
+                x = g.new_alt(c[-1])
+                t = g.make_atv(c[endorsed_h - hF])
+                g.set_pd(x, atvs=[t])
+            else:
+                x = g.hblock(c[-1], n_atv=0, n_vtb=0)
+            c.append(x)
+        return c, t
+    A, tA = chain(K + o, cA)
+    gap = 0
+    if later:
+        gap = r.choice([1, 2, 3, r.range(3, 12)])
+        for _ in range(gap - 1):
+            g.fresh_vbk()
+        B, tB = chain(K + oB, cB)
+        gap = g.vbk[g.atv[tB]["bop"]]["height"] - g.vbk[g.atv[tA]["bop"]]["height"]
+    else:
+        B, tB = chain(None, None)
+    tipA, tipB = A[-1], B[-1]
+    first = r.chance(1, 2)
+    for x in ([tipA, tipB] if first else [tipB, tipA]):
+        g.show(x)
+    if first:
+        g.on("set", tipA, tag=("accept", tipA))
+        g.on("endorsed", tA, A[cA - hF], tag=("endorsed", tA))
+        g.on("cmpx", tipB, tag=("cmpwin", 1, gap, tbl))
+        g.on("tip", tag=("tipis", tipA))
+        g.on("set", tipB, tag=("accept", tipB))
+        g.on("cmpx", tipA, tag=("cmpwin", -1, gap, tbl))
+        g.on("tip", tag=("tipis", tipA, gap, tbl))
+    else:
+        g.on("set", tipB, tag=("accept", tipB))
+        g.on("cmpx", tipA, tag=("cmpwin", -1, gap, tbl))
+        g.on("tip", tag=("tipis", tipA, gap, tbl))
+        g.on("set", tipA, tag=("accept", tipA))
+        g.on("endorsed", tA, A[cA - hF], tag=("endorsed", tA))
+        g.on("cmpx", tipB, tag=("cmpwin", 1, gap, tbl))
+        g.on("tip", tag=("tipis", tipA))
+    g.on("audit", tag=("audit",))
+    g.meta = dict(mutation="forkres_K%dki_o%s_%s" % (kmul, osym, "later" if later else "none"), planted=False,
+                  depth=T, desc=0, K=K, ki=ki, o=o, fork=hF, tip=T, gap=gap)
+    return g
+
+
+def _strict(tag_gap, table_line, res, prefix):
+    """is an advantage of `gap` VBK blocks a strict one under the fork resolution table the library reports?"""
+    if tag_gap == 0:
+        return True                     # the competitor has no endorsement at all
+    got = res.get("%s.%d" % (prefix, table_line + 1)) or ""
+    try:
+        tbl = [int(x) for x in got.split(",")]
+    except ValueError:
+        return False
+    return tag_gap >= len(tbl) or tbl[tag_gap] < tbl[0]
+
+
+def eval_counts_tags(g, res, prefix):
+    """C19 oracle lines of case_payout / case_forkres"""
+    bad = []
+    for i, line in enumerate(g.lines):
+        tag = g.tags.get(i)
+        got = res.get("%s.%d" % (prefix, i + 1))
+        if tag is None or got is None or got.startswith("SKIP"):
+            continue
+        if tag[0] == "scen" and not got.startswith("ok"):
+            bad.append((i + 1, line, list(tag), got))
+        if tag[0] == "cmpwin":
+            v = got.split(" ")[0]
+            want = str(tag[1])
+            if _strict(tag[2], tag[3], res, prefix):
+                ok = v == want
+            else:
+                ok = v in (want, "0")
+            if not ok:
+                bad.append((i + 1, line, list(tag[:3]), got))
+        if tag[0] == "tipis":
+            if len(tag) > 2 and not _strict(tag[2], tag[3], res, prefix):
+                continue
+            if got != tag[1]:
+                bad.append((i + 1, line, list(tag[:2]), got))
+    return bad
+
+
 def case_c19(rng, steps=14, mempool=False):
     """honest history: random tree, every block honest, SP forking, every containing height in the window"""
     r = rng
@@ -1762,6 +1902,7 @@ def check(vlib, ctx, which, cases):
                     cmp_invalid["skipped"] += 1
         f04, f19, mirror = evaluate(g, ires, p)
         f19 += eval_mempool_tags(g, ires, p)
+        f19 += eval_counts_tags(g, ires, p)
         died = [a for a in aborted if a[0] == p]
         if mirror and not died:
             mirror_bad += 1
